@@ -344,7 +344,8 @@ def date_codec(prog: Program, rep, rule="date-codec"):
 
     def is_from_ts(v):
         return isinstance(v, ast.Call) and norm(v.func) in ("datetime.fromtimestamp", "datetime.datetime.fromtimestamp") and len(v.args) == 1 and not v.keywords \
-            and any(isinstance(x, ast.Call) and norm(x.func) in ("struct.unpack", "struct.unpack_from") for x in ast.walk(v.args[0]))
+            and isinstance(v.args[0], ast.Subscript) and isinstance(v.args[0].slice, ast.Constant) and v.args[0].slice.value == 0 \
+            and isinstance(v.args[0].value, ast.Call) and norm(v.args[0].value.func) in ("struct.unpack", "struct.unpack_from")      # the stored word itself, not a clamped / shifted one
 
     def is_to_ts(v):
         if not (isinstance(v, ast.Call) and norm(v.func) == "struct.pack" and len(v.args) == 2):
